@@ -36,7 +36,7 @@ PRE = ("@function al($a...) { @return $a; }\n@function uf() { @return 1; }\n@fun
 
 
 def plan(tier):
-    return {"budget_s": 45 if tier == "quick" else 400, "profiles": ["R"], "min_evaluations": 5000}
+    return {"budget_s": 45 if tier == "quick" else 400, "profiles": ["R"], "min_evaluations": 1000}
 
 
 def universe_sheet(n):
